@@ -26,6 +26,7 @@ int main(int argc, char **argv) {
     int thorough = !strcmp(argv[3], "thorough");
     g_tr = fopen(argv[4], "w");
     if (!g_tr) { perror("trace"); return 2; }
+    if (getenv("VERIF_LINEBUF")) setvbuf(g_tr, NULL, _IOLBF, 0);   /* crash diagnosis: the last line is in the file */
     g_rng = seed * 0x9E3779B97F4A7C15ULL + 12345;
     g_ent = seed ^ 0xDEADBEEFCAFEF00DULL;
     if (getenv("VERIF_RESP_DUMP")) g_resp_dump = fopen(getenv("VERIF_RESP_DUMP"), "w");
